@@ -100,6 +100,8 @@ EXTRAS = ["forward", "kill", "204"]
 # (the response-less r3 is not last, so that a recording appended later competes with a servable older one)
 INITIAL = ["r0", "r2", "r4", "r3", "r1"]
 QUICK = {"initial": INITIAL, "addable": ["r5"], "requests": ["q0", "q1", "q2", "q3", "q4", "qa", "qc", "qd"]}
+QUICK_DEEP = {"initial": INITIAL, "addable": ["r5"], "requests": ["q0", "q1", "q3"], "extras": [],
+              "toggles": ["ignore_host", "ignore_content", "ignore_payload_params", "reuse"]}
 THOROUGH = {"initial": INITIAL, "addable": ["r5", "r6", "r7", "r8", "r9"],
             "requests": ["q0", "q1", "q2", "q3", "q4", "q5", "q6", "q7", "q8", "q9", "qa", "qb", "qc", "qd", "qe", "qf", "qg"]}
 
@@ -224,8 +226,8 @@ class Spec:
 
     def actions(self, s):
         acts = [["request", q] for q in self.alpha["requests"]]
-        acts += [["toggle", k] for k in TOGGLES]
-        acts += [["extra", e] for e in EXTRAS if e != s.extra]
+        acts += [["toggle", k] for k in TOGGLES if k in self.alpha.get("toggles", TOGGLES)]
+        acts += [["extra", e] for e in self.alpha.get("extras", EXTRAS) if e != s.extra]
         acts += [["add", r] for r in self.alpha["addable"] if r not in s.recorded]
         return acts
 
@@ -397,9 +399,12 @@ class Spec:
 
 def run(ctx):
     alpha = THOROUGH if ctx.thorough else QUICK
-    depth = 5  # long enough for serve, serve, add, change a matching option, request
+    # quick: the full alphabet to depth 4, and the operations of a "serve, serve, add, change a matching option, request"
+    # history (no unmatched-handling options, three requests, four toggles) to depth 5; thorough: everything to depth 5
+    scopes = [(alpha, 5)] if ctx.thorough else [(alpha, 4), (QUICK_DEEP, 5)]
     ctx.bounds = {
-        "depth": depth,
+        "scopes": [{"depth": d, "requests": a["requests"], "addable": a["addable"],
+                    "toggles": list(a.get("toggles", TOGGLES)), "extras": a.get("extras", EXTRAS)} for a, d in scopes],
         "base_request": BASE,
         "recordings_loaded": {r: {"diff": RECS[r][0], "response": RECS[r][1]} for r in alpha["initial"]},
         "recordings_addable": {r: {"diff": RECS[r][0], "response": RECS[r][1]} for r in alpha["addable"]},
@@ -407,9 +412,9 @@ def run(ctx):
         "option_toggles": {k: [v[1], v[2]] for k, v in TOGGLES.items()},
         "server_replay_extra": EXTRAS,
     }
-    spec = Spec(alpha)
-    states, capped = explore.bfs(spec, depth, ctx.tally, log=ctx.log)
-    ctx.log("bfs done: %d states" % states)
+    for a, depth in scopes:
+        states, capped = explore.bfs(Spec(a), depth, ctx.tally, log=ctx.log)
+        ctx.log("bfs done (depth %d, %d requests): %d states" % (depth, len(a["requests"]), states))
 
 
 def replay(case, t: Tally, verbose=False):
